@@ -450,6 +450,7 @@ func c19lin(c *run.Ctx) {
 		},
 		DescribeOperation: func(in, out interface{}) string { return fmt.Sprintf("%+v -> %v", in, out) },
 	}
+	c19hot(c, model)
 	for i := 0; i < n; i++ {
 		r := caseRng(c, i)
 		mem := storage.NewMemoryStore()
@@ -581,6 +582,116 @@ func c19lin(c *run.Ctx) {
 			c.Sample(map[string]interface{}{"store_history_prefix": lines, "verdict": fmt.Sprint(res)})
 		}
 	}
+}
+
+// c19hot: bursts of identical operations on ONE key released from a barrier, the widest window for a
+// check-then-act split inside a single store operation. Each burst is a tiny history checked with porcupine.
+func c19hot(c *run.Ctx, model porcupine.Model) {
+	ctx := context.Background()
+	bursts := 4000
+	if !c.Quick() {
+		bursts = 60000
+	}
+	mkReq := func(id string) *fosite.Request { q := fosite.NewRequest(); q.ID = id; q.Session = world.NewSess("u"); return q }
+	kinds := []string{"jti-set", "jti-mixed", "code-inval", "rt-revoke", "at-revoke"}
+	for b := 0; b < bursts; b++ {
+		mem := storage.NewMemoryStore()
+		kind := kinds[b%len(kinds)]
+		key := fmt.Sprintf("hot-%d", b)
+		var pre []porcupine.Operation
+		var clock int64
+		seq := func(in sop, out string) {
+			t0 := atomic.AddInt64(&clock, 1)
+			t1 := atomic.AddInt64(&clock, 1)
+			pre = append(pre, porcupine.Operation{ClientId: 0, Input: in, Call: t0, Output: out, Return: t1})
+		}
+		switch kind {
+		case "code-inval":
+			seq(sop{Op: "code-create", Key: key, Req: "r1"}, errStr(mem.CreateAuthorizeCodeSession(ctx, key, mkReq("r1"))))
+		case "rt-revoke":
+			seq(sop{Op: "rt-create", Key: key, Req: "r1"}, errStr(mem.CreateRefreshTokenSession(ctx, key, "", mkReq("r1"))))
+		case "at-revoke":
+			seq(sop{Op: "at-create", Key: key, Req: "r1"}, errStr(mem.CreateAccessTokenSession(ctx, key, mkReq("r1"))))
+		}
+		const G = 8
+		outs := make([]porcupine.Operation, G)
+		var wg sync.WaitGroup
+		start := make(chan struct{})
+		for g := 0; g < G; g++ {
+			wg.Add(1)
+			go func(g int) {
+				defer wg.Done()
+				<-start
+				in := sop{Key: key, Req: "r1"}
+				t0 := atomic.AddInt64(&clock, 1)
+				var out string
+				switch kind {
+				case "jti-set":
+					in.Op = "jti-set"
+					out = errStr(mem.SetClientAssertionJWT(ctx, key, time.Now().Add(time.Hour)))
+				case "jti-mixed":
+					if g%2 == 0 {
+						in.Op = "jti-set"
+						out = errStr(mem.MarkJWTUsedForTime(ctx, key, time.Now().Add(time.Hour)))
+					} else {
+						in.Op = "jti-valid"
+						out = errStr(mem.ClientAssertionJWTValid(ctx, key))
+					}
+				case "code-inval":
+					if g%2 == 0 {
+						in.Op = "code-inval"
+						out = errStr(mem.InvalidateAuthorizeCodeSession(ctx, key))
+					} else {
+						in.Op = "code-get"
+						_, err := mem.GetAuthorizeCodeSession(ctx, key, nil)
+						out = errStr(err)
+					}
+				case "rt-revoke":
+					switch g % 3 {
+					case 0:
+						in.Op = "rt-revoke"
+						out = errStr(mem.RevokeRefreshToken(ctx, "r1"))
+					case 1:
+						in.Op = "rt-get"
+						_, err := mem.GetRefreshTokenSession(ctx, key, nil)
+						out = errStr(err)
+					case 2:
+						in.Op = "rt-del"
+						out = errStr(mem.DeleteRefreshTokenSession(ctx, key))
+					}
+				case "at-revoke":
+					switch g % 3 {
+					case 0:
+						in.Op = "at-revoke"
+						out = errStr(mem.RevokeAccessToken(ctx, "r1"))
+					case 1:
+						in.Op = "at-get"
+						_, err := mem.GetAccessTokenSession(ctx, key, nil)
+						out = errStr(err)
+					case 2:
+						in.Op = "at-create"
+						out = errStr(mem.CreateAccessTokenSession(ctx, key, mkReq("r1")))
+					}
+				}
+				t1 := atomic.AddInt64(&clock, 1)
+				outs[g] = porcupine.Operation{ClientId: g + 1, Input: in, Call: t0, Output: out, Return: t1}
+			}(g)
+		}
+		close(start)
+		wg.Wait()
+		hist := append(pre, outs...)
+		res, _ := porcupine.CheckOperationsVerbose(model, hist, 10*time.Second)
+		c.Eval(int64(len(hist)))
+		c.Count("c19_hot_bursts", 1)
+		if res == porcupine.Illegal {
+			var lines []string
+			for _, o := range hist {
+				lines = append(lines, fmt.Sprintf("client %d [%d,%d] %+v -> %v", o.ClientId, o.Call, o.Return, o.Input, o.Output))
+			}
+			c.Violate(run.Violation{Kind: "not-linearizable", Key: "not-linearizable burst " + kind, Detail: "8 simultaneous operations on one key returned results no sequential order explains", History: lines})
+		}
+	}
+	c.Distinct[fmt.Sprintf("hot-key bursts kinds=%v", kinds)]++
 }
 
 // ---------------------------------------------------------------------------
